@@ -76,4 +76,78 @@ theorem C13_domain_matters :
     tlsLibAccepts ⟨true, false, hostOf (nLocalhost ++ [':', '3', '8', '6', '8'])⟩ .good = true := by
   decide
 
+/-! ### any host name, any IPv6 literal, any certificate -/
+
+theorem dropWhile_none (l : List Char) (c : Char) (h : ∀ ch ∈ l, ch ≠ c) : l.dropWhile (· = c) = l := by
+  cases l with
+  | nil => rfl
+  | cons a t => simp [List.dropWhile, h a (by simp)]
+
+theorem contains_false (l : List Char) (c : Char) (h : ∀ ch ∈ l, ch ≠ c) : l.contains c = false := by
+  cases hc : l.contains c with
+  | false => rfl
+  | true => rw [List.contains_iff_mem] at hc; exact absurd rfl (h c hc)
+
+/-- `host:port` for any bracket-free host text (a name, a dotted quad, even a bare IPv6 literal): the domain handed to the
+TLS library is exactly the host -/
+theorem hostOf_host_port (h port : List Char) (hh : ∀ ch ∈ h, ch ≠ '[' ∧ ch ≠ ']')
+    (hp : ∀ ch ∈ port, ch ≠ ':' ∧ ch ≠ ']') : hostOf (h ++ ':' :: port) = h := by
+  unfold hostOf
+  rw [splitLastColon_port h port (fun ch m => (hp ch m).1)]
+  simp only [contains_false port ']' (fun ch m => (hp ch m).2), Bool.false_eq_true, if_false]
+  rw [dropWhile_none h '[' (fun ch m => (hh ch m).1),
+    dropWhile_none h.reverse ']' (fun ch m => (hh ch (List.mem_reverse.mp m)).2), List.reverse_reverse]
+
+/-- `[v6]:port` for any bracket-free literal: the domain is the literal without its brackets -/
+theorem hostOf_bracketed_port (x port : List Char) (hx : ∀ ch ∈ x, ch ≠ '[' ∧ ch ≠ ']')
+    (hp : ∀ ch ∈ port, ch ≠ ':' ∧ ch ≠ ']') : hostOf ('[' :: x ++ ']' :: ':' :: port) = x := by
+  unfold hostOf
+  have e : '[' :: x ++ ']' :: ':' :: port = ('[' :: x ++ [']']) ++ ':' :: port := by simp
+  rw [e, splitLastColon_port _ port (fun ch m => (hp ch m).1)]
+  simp only [contains_false port ']' (fun ch m => (hp ch m).2), Bool.false_eq_true, if_false]
+  have d1 : ('[' :: x ++ [']']).dropWhile (· = '[') = x ++ [']'] := by
+    cases x with
+    | nil => decide
+    | cons a t => simp [List.dropWhile, (hx a (by simp)).1]
+  rw [d1]
+  have d2 : (x ++ [']']).reverse = ']' :: x.reverse := by simp
+  rw [d2]
+  have d3 : (']' :: x.reverse).dropWhile (· = ']') = x.reverse := by
+    simp only [List.dropWhile, decide_true]
+    exact dropWhile_none x.reverse ']' (fun ch m => (hx ch (List.mem_reverse.mp m)).2)
+  rw [d3, List.reverse_reverse]
+
+/-- **C13 for every host and every certificate.** With TLS on both sides and an address `host:port`: a session is established
+iff verification is off, or the certificate's chain is trusted *and* it names exactly the host the client was asked to connect
+to - whatever the host text, the port and the certificate are. -/
+theorem C13_any_host (verify : Bool) (h port : List Char) (cert : GCert) (hh : ∀ ch ∈ h, ch ≠ '[' ∧ ch ≠ ']')
+    (hp : ∀ ch ∈ port, ch ≠ ':' ∧ ch ≠ ']') :
+    gOutcome true verify true (h ++ ':' :: port) cert =
+      (if !verify || (cert.trusted && cert.names.contains h) then .session else .refused) := by
+  simp only [gOutcome, gLibAccepts, hostOf_host_port h port hh hp]
+
+theorem C13_any_literal (verify : Bool) (x port : List Char) (cert : GCert) (hx : ∀ ch ∈ x, ch ≠ '[' ∧ ch ≠ ']')
+    (hp : ∀ ch ∈ port, ch ≠ ':' ∧ ch ≠ ']') :
+    gOutcome true verify true ('[' :: x ++ ']' :: ':' :: port) cert =
+      (if !verify || (cert.trusted && cert.names.contains x) then .session else .refused) := by
+  simp only [gOutcome, gLibAccepts, hostOf_bracketed_port x port hx hp]
+
+/-- whatever the address and the certificate: a TLS client never ends in plain text, a plain client never gets a session, and a
+TLS server never serves a plain client -/
+theorem C13_any_modes (useTls verify serverTls : Bool) (address : List Char) (cert : GCert) :
+    (useTls = true → gOutcome useTls verify serverTls address cert ≠ .plain) ∧
+    (useTls = false → gOutcome useTls verify serverTls address cert ≠ .session) ∧
+    (serverTls = true → useTls = false → gOutcome useTls verify serverTls address cert = .refused) := by
+  cases useTls <;> cases serverTls <;> simp [gOutcome] <;> split <;> simp
+
+/-- the table is the instance of the general glue at the scenario's addresses and certificates -/
+theorem C13_table_is_instance (c : Cell) (port : List Char) :
+    outcome c port = gOutcome c.clientTls c.verify c.serverTls (addressOf c.addr port) ⟨trusted c.cert, sans c.cert⟩ := by
+  obtain ⟨ct, vf, st, cert, addr⟩ := c
+  cases ct <;> cases st <;> simp [outcome, gOutcome, clientParams, tlsLibAccepts, gLibAccepts]
+
+example : gOutcome true true true ("db.example.net:3868".toList) ⟨true, ["db.example.net".toList]⟩ = .session ∧
+    gOutcome true true true ("db.example.net:3868".toList) ⟨true, ["other.example.net".toList]⟩ = .refused ∧
+    gOutcome true true true ("[2001:db8::7]:3868".toList) ⟨true, ["2001:db8::7".toList]⟩ = .session := by decide
+
 end Dia.Tls
